@@ -13,7 +13,7 @@ NT == Len(Traces)
 VARIABLE tid
 Init == tid = 1
 Step == /\ tid <= NT
-        /\ PrintT(ToJson([v |-> tid, c |-> Judge(Traces[tid]), x |-> <<>>]))
+        /\ PrintT(ToJson([v |-> tid, c |-> Judge(Traces[tid]), x |-> <<>>, o |-> Output(Traces[tid])]))
         /\ tid' = tid + 1
 Spec == Init /\ [][Step]_tid
 =============================================================================
